@@ -178,7 +178,13 @@ func (ro *round) abort(counter, why string) {
 func (ro *round) commit() {
 	parent := ro.w.Head()
 	restore := ro.w.Chain[ro.c.Rng.Intn(len(ro.w.Chain))]
-	b, err := ro.w.Commit(ro.c.Rng, false, restore)
+	var b *cm.Block
+	var err error
+	if ro.c.Rng.Chance(1, 6) {
+		b, err = ro.w.CommitEmpty() // state root unchanged
+	} else {
+		b, err = ro.w.Commit(ro.c.Rng, false, restore)
+	}
 	if err != nil {
 		ro.abort("rounds_aborted_commit_failed_main_db", "commit failed: "+err.Error())
 		return
@@ -730,7 +736,7 @@ func runRound(r *vk.Run, c *vk.Case, scratch string) {
 func main() {
 	_ = logger.SetLogLevel("*:NONE")
 	r := vk.Start("C10")
-	r.Rule("each case is one round: a chain over 6 accounts + counter account (storage, code, removals) with 12 request windows. A window takes the block that becomes final next, issues exactly one request for its root the way the block processors do (explicit SnapshotState before updateStateStorage, or the checkpoint that updateStateStorage itself fires when height % CheckpointRoundsModulus == 0), then a mutator goroutine runs 0-5 further chain steps (commit / finalize with prune requests / rollback above the final block) concurrently with the snapshot goroutines, whose main-DB reads are held on logical tokens released per step (2/3 of the rounds) or slowed (1/3); then the harness waits for IsPruningBlocked()==false and verifies. One request outstanding at a time, final roots only, SnapshotsBufferLen 10000, MaxSnapshots 2-3. Round types by case index mod 4: mixed (snapshots + modulus checkpoints) / snapshots only / checkpoints only (modulus 1, no rotation) / mixed with monotone state (no node-hash revisit: unique slot values, no removals, code fixed after block 0) - only the first type can contain the known checkpoint shape. Two extra fixed cases replay the minimal sequential witnesses of that shape. Chain steps include re-processing: the head is rolled back and the identical block (same operations, same root) is committed again. 1 in 4 snapshot windows is a fault window: exactly one read of a non-root node of the traversal fails (the snapshot goroutine gives up), nothing is finalized meanwhile, and once pruning is unblocked SnapshotState is requested again for the same root and then verified. A window is non-trivial when the state has at least one data trie; distinct = distinct (kind, gate, steps, overlapped, rollback-in-window, prunes-buffered-in-window, #data tries, queue size) tuples.")
+	r.Rule("each case is one round: a chain over 6 accounts + counter account (storage, code, removals) with 12 request windows. A window takes the block that becomes final next, issues exactly one request for its root the way the block processors do (explicit SnapshotState before updateStateStorage, or the checkpoint that updateStateStorage itself fires when height % CheckpointRoundsModulus == 0), then a mutator goroutine runs 0-5 further chain steps (commit / finalize with prune requests / rollback above the final block) concurrently with the snapshot goroutines, whose main-DB reads are held on logical tokens released per step (2/3 of the rounds) or slowed (1/3); then the harness waits for IsPruningBlocked()==false and verifies. One request outstanding at a time, final roots only, SnapshotsBufferLen 10000, MaxSnapshots 2-3. Round types by case index mod 4: mixed (snapshots + modulus checkpoints) / snapshots only / checkpoints only (modulus 1, no rotation) / mixed with monotone state (no node-hash revisit: unique slot values, no removals, code fixed after block 0) - only the first type can contain the known checkpoint shape. Two extra fixed cases replay the minimal sequential witnesses of that shape. 1 in 6 commits is an empty block (root equal to its parent's). Chain steps include re-processing: the head is rolled back and the identical block (same operations, same root) is committed again. 1 in 4 snapshot windows is a fault window: exactly one read of a non-root node of the traversal fails (the snapshot goroutine gives up), nothing is finalized meanwhile, and once pruning is unblocked SnapshotState is requested again for the same root and then verified. A window is non-trivial when the state has at least one data trie; distinct = distinct (kind, gate, steps, overlapped, rollback-in-window, prunes-buffered-in-window, #data tries, queue size) tuples.")
 	r.Assume(
 		"requests never overlap and are issued only for roots of blocks that have just become final (DESIGN C10 restrictions); overlapping requests are outside the property",
 		"a request whose root is already incomplete in the main DB at request time is not verified (pruning defects are C09's subject) and only counted; neither are the checkpoints that build on such a request, until the next verified snapshot",
